@@ -924,6 +924,65 @@ theorem wait_returns_fair_from (X : Exec) (hf : X.Fair) {N : Nat} (ha : X.AddsSt
       (v.handlerReg = true → v.handlerCalls = 1) :=
   wait_returns_fair X hf ha (fun n hn r v hv => handed_stays_handed X ha hN n hn r v hv)
 
+/-- **where the fairness hypothesis comes from — interface to C09.** Fairness from tick `N` on
+    (`Exec.FairFrom`) follows from two separate assumptions:
+    * `Exec.SchedFairFrom N` — the Go scheduler: an enabled engine step other than a pop (a worker
+      inside a task, the poster, a pending callback) is eventually followed by an engine step (F1 in
+      the header of `Ecal.Props.C09`; assumed);
+    * `Exec.PoolStartsFrom N` — the pool: whenever a task is queued, later a worker pops a task or a
+      worker is inside a task. THIS is what C09 proves about the repaired pool, stated on C09's own
+      transition system (`Ecal.Pool`): `Ecal.Props.C09.no_stuck_task` (a queued task with a live
+      worker: a pool-internal non-finish step is enabled, or every live worker runs a task — the
+      second disjunct is `taskRunning`) and `Ecal.Props.C09.pop_within_bound` (pool-internal steps
+      without a pop strictly decrease `cmu`: the pop comes after boundedly many of them), combined in
+      `Ecal.Props.C09.fair_queued_task_started` (under C09's `Exec.Fair`, with no new call from `N` on —
+      C02's `AddsStopAt N` implies that no `AddTask` is made —, a queued task is popped or the pool has
+      lost all its workers; ≥ 1 worker is C02's standing assumption).
+    NOT proved: the refinement between the two models (C09's `queue`/`pcs = .run` ↔ this model's
+    `queued` monitors / phases with a worker; C09's pool-internal steps between two pops are
+    invisible here). The theorem below is therefore the exact interface, with the pool side as a
+    hypothesis in this model's vocabulary, not a derivation from `Ecal.Pool`. -/
+theorem fairFrom_of_scheduler_and_pool {X : Exec} {N : Nat} (hs : X.SchedFairFrom N) (hp : X.PoolStartsFrom N) :
+    X.FairFrom N :=
+  fairFrom_of_parts hs hp
+
+/-- **the wait returns, from the two sources of fairness**: scheduler fairness for the non-pop engine
+    steps + the pool starting queued tasks (both from tick `N` on), the program adding no work after
+    `N`, every monitor handed over at `N` ⇒ a tick is reached at which every cascade is complete, every
+    waiter released with an exact report, every registered handler run once. (The liveness proof only
+    ever uses fairness from `N` on: `fair_quiescence_from`.) -/
+theorem wait_returns_scheduler_and_pool (X : Exec) {N : Nat} (hs : X.SchedFairFrom N) (hp : X.PoolStartsFrom N)
+    (ha : X.AddsStopAt N) (hN : (X.C N).allHanded) :
+    ∃ n, N ≤ n ∧ ∀ r v, (X.C n).view r = some v →
+      (∀ m ∈ v.mons, m.phase.finished = true) ∧ v.posted = 1 ∧
+      (v.waiting = true → v.released = 1 ∧ ((step v .waitReturns).isSome = true ∨ v.waitReturned = true) ∧
+         allErrors v = expectedReport v) ∧
+      (v.handlerReg = true → v.handlerCalls = 1) := by
+  obtain ⟨n, hn, hq⟩ := fair_quiescence_from X (fairFrom_of_scheduler_and_pool hs hp) ha
+  refine ⟨n, hn, ?_⟩
+  intro r v hv
+  obtain ⟨hw, hnf⟩ := handed_stays_handed X ha hN n hn r v hv
+  exact conc_quiescent_complete (exec_reachable X n) hq hv hw hnf
+
+/-- non-vacuity: the witness execution `wExec` satisfies both parts from tick 9 on (it is fair, so
+    every enabled step — pop or not — is followed by the engine step of the last tick; a queued task
+    is followed by a pop: ticks 9 and 13 pop the two children) -/
+example : wExec.SchedFairFrom 9 ∧ wExec.PoolStartsFrom 9 ∧ wExec.AddsStopAt 9 ∧ (wExec.C 9).allHanded := by
+  refine ⟨?_, ?_, wExec_addsStop, wExec_handed_at_9⟩
+  · intro n _ ⟨r, e, hi, _, hen⟩
+    exact wExec_fair n ⟨r, e, hi, hen⟩
+  · intro n _ hq
+    -- a queued task implies an enabled engine step or … simply: while n ≤ 13 the pop of tick 13 is ahead;
+    -- after tick 13 no task is queued any more
+    by_cases hn : n ≤ 13
+    · refine ⟨13, hn, Or.inl ⟨0, 0, 2, rfl, ?_⟩⟩
+      obtain ⟨e, he, hs⟩ := wExec_no_stutter 13 (by decide)
+      have : wExec.ev 13 = some (.at 0 (.pop 0 2)) := rfl
+      rw [this] at he; cases he
+      rw [hs]; rfl
+    · exfalso
+      exact wExec_no_queued_after_13 n (by omega) hq
+
 /-- **non-vacuity witness of the liveness theorems** (`fair_run_reaches_quiescence`,
     `wait_returns_fair`, `wait_returns_fair_from`): a concrete, NON-STUTTERING fair execution.
     `wExec` (Lemmas/CascadeLive.lean) performs `AddEventAndWait` of a root event whose rule adds two
